@@ -114,32 +114,37 @@ func configsA(quick bool) []*CfgA {
 }
 
 func scenariosB(quick bool) ([]ScB, []gosched.Bounds) {
-	scs := []ScB{
-		{Name: "one-submission-two-signals-1-client", Clients: 1, Polls: []string{"S1+S2"}, MaxTry: 2, Timeout: 2 * time.Second},
-		{Name: "one-submission-2-clients", Clients: 2, Polls: []string{"S1"}, MaxTry: 2, Timeout: 2 * time.Second},
-		{Name: "three-polls-back-to-back(S1,S2,S1)", Clients: 1, Polls: []string{"S1", "S2", "S1"}, MaxTry: 1, Timeout: 2 * time.Second},
-		{Name: "three-polls-1s-apart(S1,S2,S1)", Clients: 1, Polls: []string{"S1", "S2", "S1"}, Sleep: true, MaxTry: 1, Timeout: 2 * time.Second},
+	one2 := ScB{Name: "one-submission-two-signals-1-client", Clients: 1, Polls: []string{"S1+S2"}, MaxTry: 2, Timeout: 2 * time.Second}
+	two := ScB{Name: "one-submission-2-clients", Clients: 2, Polls: []string{"S1"}, MaxTry: 2, Timeout: 2 * time.Second}
+	b2b := ScB{Name: "three-polls-back-to-back(S1,S2,S1)", Clients: 1, Polls: []string{"S1", "S2", "S1"}, MaxTry: 1, Timeout: 2 * time.Second}
+	apart := ScB{Name: "three-polls-1s-apart(S1,S2,S1)", Clients: 1, Polls: []string{"S1", "S2", "S1"}, Sleep: true, MaxTry: 1, Timeout: 2 * time.Second}
+	var scs []ScB
+	var bs []gosched.Bounds
+	add := func(sc ScB, pre, faults int) {
+		sc.Name = fmt.Sprintf("%s[p%d,f%d]", sc.Name, pre, faults)
+		scs = append(scs, sc)
+		bs = append(bs, gosched.Bounds{Preemptions: pre, Faults: faults})
 	}
-	b := []gosched.Bounds{
-		{Preemptions: 2, Faults: 2},
-		{Preemptions: 1, Faults: 2},
-		{Preemptions: 2, Faults: 1},
-		{Preemptions: 1, Faults: 2},
+	if quick {
+		add(one2, 2, 2)
+		add(two, 1, 1)
+		add(two, 0, 2)
+		add(b2b, 1, 1)
+		add(b2b, 2, 0)
+		add(apart, 1, 1)
+		add(apart, 0, 2)
+		return scs, bs
 	}
-	if !quick {
-		b = []gosched.Bounds{
-			{Preemptions: 3, Faults: 3},
-			{Preemptions: 2, Faults: 3},
-			{Preemptions: 3, Faults: 2},
-			{Preemptions: 2, Faults: 2},
-		}
-		scs = append(scs,
-			ScB{Name: "four-polls-two-keys-busy(S1,S2,S1,S2)", Clients: 1, Polls: []string{"S1", "S2", "S1", "S2"}, MaxTry: 2, Timeout: 2 * time.Second},
-			ScB{Name: "two-polls-2-clients(S1,S2)", Clients: 2, Polls: []string{"S1", "S2"}, Sleep: true, MaxTry: 2, Timeout: 3 * time.Second},
-		)
-		b = append(b, gosched.Bounds{Preemptions: 2, Faults: 2}, gosched.Bounds{Preemptions: 2, Faults: 2})
-	}
-	return scs, b
+	add(one2, 3, 3)
+	add(two, 2, 1)
+	add(two, 1, 2)
+	add(b2b, 2, 1)
+	add(b2b, 1, 2)
+	add(apart, 2, 1)
+	add(apart, 1, 2)
+	add(ScB{Name: "four-polls-two-keys-busy(S1,S2,S1,S2)", Clients: 1, Polls: []string{"S1", "S2", "S1", "S2"}, MaxTry: 2, Timeout: 2 * time.Second}, 1, 1)
+	add(ScB{Name: "two-polls-2-clients(S1,S2)", Clients: 2, Polls: []string{"S1", "S2"}, Sleep: true, MaxTry: 2, Timeout: 3 * time.Second}, 1, 1)
+	return scs, bs
 }
 
 var requiredA = []string{
